@@ -59,6 +59,20 @@ func (o *OnceHandle) Once() Component {
 		if o.c != nil {
 			return o.c.Render(ctx, w)
 		}
-		return GetChildren(ctx).Render(ctx, w)
+		return renderChildren(ctx, w)
 	})
+}
+
+// renderChildren renders the children passed to the current component call. While they
+// are being rendered they are removed from the context, as generated components do, so
+// that components inside them that are called without children do not receive them too.
+func renderChildren(ctx context.Context, w io.Writer) error {
+	_, v := getContext(ctx)
+	children := v.children
+	if children == nil {
+		return nil
+	}
+	v.children = nil
+	defer func() { v.children = children }()
+	return (*children).Render(ctx, w)
 }
